@@ -199,6 +199,19 @@ func corpus() []caseInput {
 	attr("corpus:from-zone-other", func(d, t *gRule) { d.From = "z3" })
 	attr("corpus:application-absent-on-device", func(d, t *gRule) { d.App = "-" })
 	attr("corpus:log-setting-only-on-device", func(d, t *gRule) { d.LogSetting = "TDC-Panorama" })
+	// F-C03h: the state after an approve that was cut right after `set service 'TCP 443 X'`, as device
+	// (pan_sgroup_member_kept_unreferenced_counterexample): nothing is planned, the service stays
+	{
+		x := gSvc{Name: "TCP 443 X", Proto: "tcp", Port: "443"}
+		rs := []gRule{ru("r1", l("any"), l("any"), l("SG")), ru("r2", l("any"), l("any"), l("tcp 443"))}
+		cs = append(cs, pair("corpus:F-C03h",
+			gVsys{Rules: rs, SGroups: []gGrp{{"SG", l("tcp 80", "tcp 443")}}, Svcs: append(sv("tcp 80", "tcp 443"), x)},
+			gVsys{Rules: rs, SGroups: []gGrp{{"SG", l("tcp 80", "TCP 443 X")}}, Svcs: append(sv("tcp 80", "tcp 443"), x)}))
+		// the approve that leads there when cut after its first request
+		cs = append(cs, pair("corpus:F-C03h-before-the-cut",
+			gVsys{Rules: rs, SGroups: []gGrp{{"SG", l("tcp 80", "tcp 443")}}, Svcs: sv("tcp 80", "tcp 443")},
+			gVsys{Rules: rs, SGroups: []gGrp{{"SG", l("tcp 80", "TCP 443 X")}}, Svcs: append(sv("tcp 80", "tcp 443"), x)}))
+	}
 	// raw and IPv6 parts in SEVERAL vsys: every vsys of the target gets the prepended and the <APPEND/>
 	// rules of its own part only; the parts list the vsys in another order than the main file
 	{
